@@ -172,7 +172,7 @@ Proof.
   unfold VMpy.flag. rewrite nonblank_eq. fold anb.
   pose proof (proj1 (loop_agree anb code keys) sigs Hlen) as H. unfold R in H.
   destruct (checksigs_outer o flags sv sigs keys anb (Ret code)) as [[|]| |e|],
-           (cms_loop o flags sv code sigs keys) as [[|]|e2|]; cbn [vbind]; try contradiction; auto.
+           (cms_loop o flags sv code sigs keys) as [[|]|e2|]; cbn [vbind]; try contradiction; auto; split; [reflexivity|discriminate].
 Qed.
 
 Lemma cms_single code sig key :
@@ -208,7 +208,7 @@ Proof.
   unfold do_OP_CHECKSIG, op_checksig. destruct s as [pc stk alt cond opc bch].
   cbn [AgreeBase.abs e_stack e_bch st_stack st_bch st_alt] in *.
   destruct stk as [|key [|sig r]]; [destruct verify; exact I|destruct verify; exact I|].
-  cbn [vm_pop st_stack vbind VMpy.set_stack st_pc st_alt st_cond st_opc st_bch].
+  unfold vm_pop, VMpy.set_stack. cbn [st_stack st_pc st_alt st_cond st_opc st_bch vbind].
   set (s2 := mkst pc r alt cond opc bch).
   assert (Hi : sv = SV_BASE -> Forall item_ok [sig]).
   { intros Eb. destruct (HI Eb) as (Hs & _). inversion Hs as [|? ? _ Hs']. inversion Hs'; subst. constructor; auto. }
@@ -235,6 +235,130 @@ Proof.
       * rewrite pop_verify_eq. cbn. exact I.
       * cbn. repeat split; reflexivity.
     + rewrite H. destruct verify; exact I.
+Qed.
+
+(* ---- family (10) -------------------------------------------------------------------------------------------------- *)
+Lemma vm_pop_n_eq n : forall s,
+  vm_pop_n n s = if (n <=? length (st_stack s))%nat
+                 then VOk (firstn n (st_stack s), VMpy.set_stack s (skipn n (st_stack s))) else VFail.
+Proof.
+  induction n as [|n IH]; intros [pc stk alt cond opc bch]; cbn [vm_pop_n st_stack].
+  - reflexivity.
+  - unfold vm_pop. cbn [st_stack]. destruct stk as [|x r]; [reflexivity|]. cbn [vbind].
+    rewrite IH. unfold VMpy.set_stack. cbn [st_stack st_pc st_alt st_cond st_opc st_bch length].
+    destruct (Nat.leb_spec n (length r)); destruct (Nat.leb_spec (S n) (S (length r))); try lia; reflexivity.
+Qed.
+
+Lemma empty_eqb d : bytes_eqb d [] = (len d =? 0).
+Proof. destruct d; reflexivity. Qed.
+
+(* do_OP_CHECKMULTISIG after the key count has been read and range-checked, against the rest of Core's arm *)
+Definition cms_rel (vf : list bool) (cond : cstate) (opc' : Z) (py : vres vmstate) (core : cres est) : Prop :=
+  match py, core with
+  | VOk s6, COk c' => c' = abs s6 vf /\ st_cond s6 = cond /\ st_opc s6 = opc'
+  | VFail, CErr _ => True
+  | _, _ => False
+  end.
+
+Lemma agree_cms (verify : bool) s vf rest fx :
+  cond_rel (st_cond s) vf -> Inv_sig (st_stack s) (st_alt s) -> (0 <= st_opc s)%Z ->
+  hres s (handler (if verify then KCheckMultiSigVerify else KCheckMultiSig) s)
+         (exec_op (if verify then xaf else xae) rest fx (abs s vf)).
+Proof.
+  intros Rc HI Hopc.
+  assert (E : exec_op (if verify then xaf else xae) rest fx (abs s vf)
+              = op_checkmultisig o flags sv (flag_set flags VERIFY_MINIMALDATA) verify (abs s vf))
+    by (destruct verify; reflexivity).
+  rewrite E. clear E.
+  assert (E : handler (if verify then KCheckMultiSigVerify else KCheckMultiSig) s =
+              vbind (do_OP_CHECKMULTISIG o flags sv script s) (fun s' => if verify then pop_verify s' else VOk s')).
+  { destruct verify; cbn [VMpy.handler]; [reflexivity|].
+    destruct (do_OP_CHECKMULTISIG o flags sv script s); reflexivity. }
+  rewrite E. clear E.
+  unfold do_OP_CHECKMULTISIG, op_checkmultisig. destruct s as [pc stk alt cond opc bch].
+  cbn [AgreeBase.abs e_stack e_bch e_opc st_stack st_bch st_alt st_cond st_opc] in *.
+  rewrite vm_pop_int_eq. cbn [st_stack]. change (N.of_nat 4) with 4.
+  destruct stk as [|kc s1]; [exact I|].
+  destruct (script_num (flag_set flags VERIFY_MINIMALDATA) 4 kc) as [nk|e|] eqn:Enk;
+    [| |exfalso; exact (nf_script_num _ _ _ Enk)]; cbn [to_vres vbind cbind]; [|exact I].
+  unfold MAX_PUBKEYS_PER_MULTISIG.
+  destruct ((nk <? 0)%Z || (20 <? nk)%Z) eqn:Erange; [exact I|].
+  cbv zeta.
+  match goal with
+  | |- AgreeBase.hres _ _ ?py (if ?c then _ else ?core) =>
+    assert (Hrest : cms_rel vf cond (opc + nk)%Z py core); [|set (PY := py) in *; set (CORE := core) in *]
+  end.
+  2: { unfold MAX_OPS_PER_SCRIPT, MAX_OP_COUNT.
+       destruct (N.ltb_spec 201 (Z.to_N opc + Z.to_N nk)) as [Hc|Hc].
+       - unfold cms_rel in Hrest. destruct PY as [s6| |e|], CORE as [c'|e2|]; try contradiction; cbn; auto.
+         destruct Hrest as (_ & _ & ->). lia.
+       - unfold cms_rel in Hrest. destruct PY as [s6| |e|], CORE as [c'|e2|]; try contradiction; cbn; auto.
+         destruct Hrest as (-> & Hcd & Ho). exists vf. rewrite Hcd, Ho. cbn [st_cond st_opc]. repeat split; auto; lia. }
+  (* the rest, lock-step *)
+  unfold VMpy.set_stack at 1. cbn [st_pc st_stack st_alt st_cond st_opc st_bch].
+  rewrite vm_pop_n_eq. cbn [st_stack].
+  set (nkeys := Z.to_nat nk).
+  destruct (Nat.leb_spec nkeys (length s1)) as [Hk|Hk].
+  2: { replace (length s1 <? nkeys + 1)%nat with true by lia. exact I. }
+  cbn [vbind]. rewrite vm_pop_int_eq. unfold VMpy.set_stack at 1. cbn [st_pc st_stack st_alt st_cond st_opc st_bch].
+  change (N.of_nat 4) with 4.
+  destruct (skipn nkeys s1) as [|sc s3] eqn:Esk.
+  { destruct (length s1 <? nkeys + 1)%nat; exact I. }
+  assert (Hl1 : (length s1 = nkeys + S (length s3))%nat).
+  { pose proof (skipn_length nkeys s1) as K. rewrite Esk in K. cbn [length] in K. lia. }
+  replace (length s1 <? nkeys + 1)%nat with false by lia.
+  destruct (script_num (flag_set flags VERIFY_MINIMALDATA) 4 sc) as [ns|e|] eqn:Ens;
+    [| |exfalso; exact (nf_script_num _ _ _ Ens)]; cbn [to_vres vbind cbind]; [|exact I].
+  destruct ((ns <? 0)%Z || (nk <? ns)%Z) eqn:Erange2; [exact I|].
+  unfold VMpy.set_stack at 1. cbn [st_pc st_stack st_alt st_cond st_opc st_bch].
+  rewrite vm_pop_n_eq. cbn [st_stack].
+  set (nsigs := Z.to_nat ns).
+  destruct (Nat.leb_spec nsigs (length s3)) as [Hs|Hs].
+  2: { replace (length s3 <? nsigs + 1)%nat with true by lia. exact I. }
+  cbn [vbind]. unfold vm_pop, VMpy.set_stack at 1 2. cbn [st_pc st_stack st_alt st_cond st_opc st_bch].
+  destruct (skipn nsigs s3) as [|dummy r] eqn:Esk2.
+  { destruct (length s3 <? nsigs + 1)%nat; [exact I|].
+    destruct (cms_loop _ _ _ _ _ _) as [a|e|] eqn:Ecl; [| |exfalso; exact (nf_cms_loop _ _ _ _ _ _ Ecl)];
+      cbn [cbind]; try exact I.
+    destruct (negb a && _ && _); exact I. }
+  assert (Hl3 : (length s3 = nsigs + S (length r))%nat).
+  { pose proof (skipn_length nsigs s3) as K. rewrite Esk2 in K. cbn [length] in K. lia. }
+  replace (length s3 <? nsigs + 1)%nat with false by lia.
+  cbn [vbind]. unfold VMpy.set_stack. cbn [st_pc st_stack st_alt st_cond st_opc st_bch].
+  set (keys := firstn nkeys s1). set (sigs := firstn nsigs s3).
+  set (s5 := mkst pc r alt cond opc bch).
+  assert (Hi : sv = SV_BASE -> Forall item_ok sigs).
+  { intros Eb. destruct (HI Eb) as (Hst & _). inversion Hst as [|? ? _ Hs1]; subst.
+    apply Forall_firstn. pose proof (Forall_skipn item_ok nkeys _ Hs1) as K. rewrite Esk in K. inversion K; assumption. }
+  assert (Hlen : (length sigs <= length keys)%nat).
+  { unfold sigs, keys. rewrite !firstn_length. unfold nsigs, nkeys in *. lia. }
+  pose proof (checksigs_agree s5 sigs keys Hlen Hi) as H. cbv zeta in H.
+  change (skipn (st_bch s5) script) with (skipn bch script) in H.
+  change (match sv with
+          | SV_BASE => fold_left (fun c sg => find_and_delete (push_encode sg) c) sigs (skipn bch script)
+          | SV_WITNESS_V0 => skipn bch script
+          end) with (core_code sv sigs (skipn bch script)).
+  set (code := core_code sv sigs (skipn bch script)) in *.
+  set (anb := flag_set flags VERIFY_NULLFAIL && existsb (fun sg => negb (len sg =? 0)) sigs) in *.
+  unfold VMpy.flag. rewrite empty_eqb.
+  destruct (flag_set flags VERIFY_NULLDUMMY && negb (len dummy =? 0)) eqn:Edum.
+  { destruct (cms_loop o flags sv code sigs keys) as [a|e|] eqn:Ecl; [| |exfalso; exact (nf_cms_loop _ _ _ _ _ _ Ecl)];
+      cbn [cbind]; try exact I.
+    destruct (negb a && _ && _); exact I. }
+  destruct (checksigs o flags sv script s5 sigs keys) as [s6| |e|],
+           (cms_loop o flags sv code sigs keys) as [ok|e2|]; try contradiction; cbn [vbind cbind].
+  - destruct H as [-> Hn].
+    assert (Enf : negb ok && flag_set flags VERIFY_NULLFAIL && existsb (fun sg => negb (len sg =? 0)) sigs = false).
+    { rewrite <- andb_assoc. fold anb. destruct ok; [reflexivity|]. rewrite (Hn eq_refl). reflexivity. }
+    rewrite Enf. unfold s5, vm_append, VMpy.set_opc, VMpy.set_stack. cbn [st_pc st_stack st_alt st_cond st_opc st_bch].
+    cbn [vbind]. destruct verify; cbv beta iota.
+    + rewrite pop_verify_eq. cbn [st_stack]. rewrite cast_bool_vec. destruct ok; [|exact I].
+      cbn. repeat split; try reflexivity.
+      unfold AgreeBase.abs, VMcore.set_stack, VMcore.set_opc, VMpy.set_stack; cbn; f_equal; lia.
+    + cbn. repeat split; try reflexivity.
+      unfold AgreeBase.abs, VMcore.set_stack, VMcore.set_opc, VMpy.set_stack; cbn; f_equal; lia.
+  - destruct ok; [contradiction|]. rewrite <- andb_assoc. fold anb. rewrite H. cbn [negb andb]. exact I.
+  - exact I.
 Qed.
 
 End Sig.
